@@ -7,7 +7,25 @@ import math
 
 import numpy as np
 
-from .common import q, qv, use_repo
+from .common import q as _q_exact, use_repo
+
+# A non-finite number where the solver should hold a finite one (a trial's value or coordinate, the reported best value) has no
+# rational form: the event it belongs to is replaced by a "malformed" event (clause Malformed of AGPTrace.tla) - a recorded outcome,
+# not a crash of the recorder.
+_NONFINITE = []
+
+
+def q(x):
+    try:
+        return _q_exact(x)
+    except ValueError:
+        _NONFINITE.append(repr(x))
+        return "0"
+
+
+def qv(v):
+    return [q(float(t)) for t in v]
+
 
 use_repo()
 from iOpt.method.listener import Listener  # noqa: E402
@@ -279,6 +297,9 @@ class SolverRun:
                    "jfrom": int(judge[0]), "jstride": int(judge[1])})
 
     def emit(self, e):
+        if _NONFINITE:
+            e = {"ev": "malformed", "of": e.get("ev"), "what": "non-finite value " + _NONFINITE[0]}
+            del _NONFINITE[:]
         e["tid"] = self.tid
         e["id"] = len(self.events) + 1
         self.events.append(e)
